@@ -7,6 +7,7 @@ package security
 // every pair of conflicting memory accesses of the target code for an ordering edge.
 
 import (
+	"errors"
 	"sync"
 
 	goerrors "github.com/ajitpratap0/GoSQLX/pkg/errors"
@@ -18,11 +19,13 @@ import (
 	vx "github.com/ajitpratap0/GoSQLX/zzvx"
 )
 
+var errVxBoom = errors.New("boom")
+
 var vxRaceTexts = []string{"SELECT a FROM t", "SELCT a", "SELECT a FROM t WHERE 1 = 1"}
 
-const vxNRaceOps = 8
+const vxNRaceOps = 9
 
-var vxRaceOpNames = []string{"Parse", "Validate", "Format", "metrics", "suggest", "span", "scan", "tokenize"}
+var vxRaceOpNames = []string{"Parse", "Validate", "Format", "metrics", "suggest", "span", "scan", "tokenize", "metrics-error"}
 
 func vxRaceOp(op int, text string, node ast.Node) string {
 	switch op {
@@ -66,6 +69,14 @@ func vxRaceOp(op int, text string, node ast.Node) string {
 			return "critical"
 		}
 		return "clean"
+	case 8:
+		metrics.RecordTokenization(1, len(text), errVxBoom)
+		st := metrics.GetStats()
+		n := 0
+		for range st.ErrorsByType {
+			n++
+		}
+		return "stats-with-errors"
 	default:
 		tk := tokenizer.GetTokenizer()
 		toks, err := tk.Tokenize([]byte(text))
@@ -110,8 +121,8 @@ func vxRace(n int, ops []int) {
 	}
 }
 
-var vxAllRaceOps = []int{0, 1, 2, 3, 4, 5, 6, 7}
+var vxAllRaceOps = []int{0, 1, 2, 3, 4, 5, 6, 7, 8}
 
-func VxC10_Race2()    { vxRace(2, []int{0, 3, 4, 5, 7}) }
+func VxC10_Race2()    { vxRace(2, []int{0, 3, 4, 5, 7, 8}) }
 func VxC10_Race2All() { vxRace(2, vxAllRaceOps) }
-func VxC10_Race3()    { vxRace(3, []int{3, 4, 5}) }
+func VxC10_Race3()    { vxRace(3, []int{3, 5, 8}) }
